@@ -117,15 +117,15 @@ def meanStd (tL tR : Nat → Rat) (μ σ : Rat) : Except Err PB :=
 /-- `mean_var(mean, var) = mean_std(mean, np.sqrt(var))`; `s` is the supplied `np.sqrt(var)` -/
 def meanVar (tL tR : Nat → Rat) (μ _v s : Rat) : Except Err PB := meanStd tL tR μ s
 
-/-! ## min_max_mean -/
+/-! ## min_max_mean (as repaired: cancellation-free formula, clamped to the range) -/
 
 def mmmLeftAt (a b μ mid : Rat) (k : Nat) : Except Err Rat :=
   let i := lvL k
-  if i ≤ mid then .ok a else if i = 0 then .error .ZeroDivision else .ok ((μ - b) / i + b)
+  if i ≤ mid then .ok a else if i = 0 then .error .ZeroDivision else .ok (max a ((μ - b) / i + b))
 
 def mmmRightAt (a b μ mid : Rat) (k : Nat) : Except Err Rat :=
   let j := lvR k
-  if mid ≤ j then .ok b else if 1 - j = 0 then .error .ZeroDivision else .ok ((μ - a * j) / (1 - j))
+  if mid ≤ j then .ok b else if 1 - j = 0 then .error .ZeroDivision else .ok (min b ((μ - a) / (1 - j) + a))
 
 def minMaxMean (a b μ : Rat) : Except Err PB :=
   if b - a = 0 then .error .ZeroDivision else
@@ -184,7 +184,7 @@ def mmmsLeftUnit (R : Roots) (ml sl sr : Rat) (i : Nat) : Rat :=
         else ml
       (p + sl * sl + x4 * x4 - 1) / (x4 + p - 1)
   let x6 := if p ≤ 0 ∨ p ≤ 1 - ml then 0 else (ml - 1) / p + 1
-  max (max (max x2 x3) x6) 0
+  min (max (max (max x2 x3) x6) 0) 1
 
 /-- right value of step `i` on the unit scale (`p = (i+1)/200`) -/
 def mmmsRightUnit (R : Roots) (mr sl sr : Rat) (i : Nat) : Rat :=
@@ -200,12 +200,28 @@ def mmmsRightUnit (R : Roots) (mr sl sr : Rat) (i : Nat) : Rat :=
         else mr
       (p + sl * sl + x4 * x4 - 1) / (x4 + p - 1) - 1
   let x6 := if 1 - mr ≤ p ∨ 1 ≤ p then 1 else mr / (1 - p)
-  min (min (min x2 x3) x6) 1
+  max (min (min (min x2 x3) x6) 1) 0
+
+/-- `np.maximum.accumulate` -/
+def cummaxFrom (m : Rat) : List Rat → List Rat
+  | [] => []
+  | x :: xs => max m x :: cummaxFrom (max m x) xs
+def cummax : List Rat → List Rat
+  | [] => []
+  | x :: xs => x :: cummaxFrom x xs
+/-- `np.minimum.accumulate(R[::-1])[::-1]`: running minimum from the top -/
+def cumminFrom (m : Rat) : List Rat → List Rat
+  | [] => []
+  | x :: xs => min m x :: cumminFrom (min m x) xs
+def cumminRev (l : List Rat) : List Rat :=
+  match l.reverse with
+  | [] => []
+  | x :: xs => (x :: cumminFrom x xs).reverse
 
 def mmmsLeft (R : Roots) (a ran ml sl sr : Rat) : List Rat :=
-  (List.range 200).map fun i => mmmsLeftUnit R ml sl sr i * ran + a
+  cummax ((List.range 200).map fun i => mmmsLeftUnit R ml sl sr i * ran + a)
 def mmmsRight (R : Roots) (a ran mr sl sr : Rat) : List Rat :=
-  (List.range 200).map fun i => mmmsRightUnit R mr sl sr i * ran + a
+  cumminRev ((List.range 200).map fun i => mmmsRightUnit R mr sl sr i * ran + a)
 
 /-- `min_max_mean_std`.  `_constrain` builds `I(max(mean,min), min(mean,max))` and
 `I(max(std,0), min(std,smax))`, whose constructor asserts `lo ≤ hi`: a mean outside the range,
